@@ -28,11 +28,11 @@ CLAIMED = {
    note="Trusted: RefBASIC (rules of DESIGN.md appendix B, taken from the manual and the property statements) and the renderer; grey zones set the model's grey flag and discard the case (counted in the evidence).",
    tech="deterministic simulation: seeded programs and sessions under seeded slice schedules, refinement check against an executable reference model (RefBASIC)"),
  "C06": dict(cat="exploration", ref="DESIGN.md section 5 C06",
-   text="Seeded direct-mode sessions of store operations (typed LET incl. failing ones, DIM / ERASE / implicit dimensioning with boundary subscripts, DEFtype on ranges, SWAP same-typed and mixed, FOR, INPUT, MID$ assignment, CLEAR, RUN) over a universe of colliding names; after every operation a probe line reads back the touched names and a sample of others and is compared with RefBASIC's typed map; 6%: a mixed-type SWAP or another failing store inside a stored program, RUN, probe, CONT, probe (a rejected SWAP leaves both operands unchanged for good).",
+   text="Seeded direct-mode sessions of store operations (typed LET incl. failing ones, DIM / ERASE / implicit dimensioning with boundary subscripts, DEFtype on ranges, SWAP same-typed and mixed, FOR, INPUT, MID$ assignment, CLEAR, RUN) over a universe of colliding names (incl. names that begin and end with an array's name); after every operation a probe line reads back the touched names and a sample of others and is compared with RefBASIC's typed map; 6%: a mixed-type SWAP or another failing store inside a stored program, RUN, probe, CONT, probe (a rejected SWAP leaves both operands unchanged for good).",
    note="Trusted: RefBASIC's store model. Within one evaluation a base name is spelled either always with or always without a type suffix (whether A and A! are one variable is not settled by the manual). Interrupts inside SWAP / MID$= are enumerated by C13, pool exhaustion by C18.",
    tech="deterministic simulation: seeded operation sequences with failing statements against a typed map reference model, read back after every step"),
  "C09": dict(cat="exploration", ref="DESIGN.md section 5 C09",
-   text="Seeded programs with DATA lines anywhere (also in never-executed IF branches), READ lists of every type, RESTORE / RESTORE n to arbitrary lines, and sessions mixing RUN, direct-mode READ/RESTORE, edits that insert/change/delete DATA lines, CLEAR, STOP + READ + CONT, valid RENUM commands, DATA typed as a direct statement; members: READs followed by a run that dies of pool exhaustion and a direct READ; C13's interrupt + CONT enumeration over READ-heavy programs; every typed line is compared with RefBASIC's data-pointer model.",
+   text="Seeded programs with DATA lines anywhere (also in never-executed IF branches), READ lists of every type, RESTORE / RESTORE n to arbitrary lines, and sessions mixing RUN, direct-mode READ/RESTORE, edits that insert/change/delete DATA lines, edits that leave the DATA alone (the position must survive them), CLEAR, STOP + READ + CONT, valid RENUM commands, DATA typed as a direct statement; members: READs followed by a run that dies of pool exhaustion and a direct READ; C13's interrupt + CONT enumeration over READ-heavy programs; every typed line is compared with RefBASIC's data-pointer model.",
    note="Trusted: RefBASIC. The DATA position right after an edit is a grey zone (READ there discards the case).",
    tech="deterministic simulation: seeded programs and edit/run histories against RefBASIC's data-pointer model"),
  "C10": dict(cat="exploration", ref="DESIGN.md section 5 C10",
@@ -40,11 +40,11 @@ CLAIMED = {
    note="Trusted: RefBASIC (parameters in a local frame). Line attribution of errors raised inside function bodies, calls after edits and calls under TRON are grey zones.",
    tech="deterministic simulation: seeded programs and sessions against RefBASIC, pool-exhaustion fault (runaway recursion) with canary"),
  "C11": dict(cat="exploration", ref="DESIGN.md section 5 C11, section 4.3",
-   text="Seeded programs and direct lines over-sampling PRINT lists (strings incl. multi-byte and embedded line feeds, numbers of each type, TAB around column/zone boundaries and +-255, SPC, POS, separators, trailing separators) interleaved with TRON, INPUT, planted errors and STOP with the cursor mid-line, LIST between prints, keyboard polls between items, CONT; members: a program chaining with RUN \"file\" while the cursor is mid-line (twin), C13's interrupt + CONT enumeration over PRINT-heavy programs with the world invariant that a ?BREAK report arrives at column 0. RefBASIC lays out from the simulated terminal's true cursor column; transcripts must be identical. The column clause is decided by simulation (two parties: terminal cursor vs the VM's belief); number formatting only for the generated values.",
+   text="Seeded programs and direct lines over-sampling PRINT lists (strings incl. multi-byte and embedded line feeds, numbers of each type, TAB around column/zone boundaries and +-255, SPC, POS, separators, trailing separators) interleaved with TRON, INPUT, planted errors and STOP with the cursor mid-line, LIST between prints (also of an empty range), keyboard polls between items, CONT; members: a program chaining with RUN \"file\" while the cursor is mid-line (twin), C13's interrupt + CONT enumeration over PRINT-heavy programs with the world invariant that a ?BREAK report arrives at column 0. RefBASIC lays out from the simulated terminal's true cursor column; transcripts must be identical. The column clause is decided by simulation (two parties: terminal cursor vs the VM's belief); number formatting only for the generated values.",
    note="Trusted: the terminal model's cursor rule and RefBASIC's PRINT rules. The for-all-floats formatting clause is a pure function and is not claimed.",
    tech="deterministic simulation: terminal-cursor model vs VM column bookkeeping across Print/Input/Errors/List/trace/BREAK events, RefBASIC layout oracle"),
  "C17": dict(cat="exploration", ref="DESIGN.md section 5 C17",
-   text="Seeded programs over-sampling INPUT (prompt / no prompt / leading comma, 1-5 targets of every type, array targets subscripted by earlier targets, in loops, subroutines, IF branches and direct mode) answered by synthesised replies of clearly valid, clearly invalid and structurally wrong classes (incl. over-long ones, hex digits D and E, non-ASCII text) with up to two bad replies before an accepted one; targets whose type comes from DEFtype; 0.5%: C13's interrupt + CONT enumeration in every protocol state; the request / REDO / request protocol, the caps flag and everything printed afterwards are compared with RefBASIC's reply model.",
+   text="Seeded programs over-sampling INPUT (prompt / no prompt / leading comma, 1-5 targets of every type, array targets subscripted by earlier targets, in loops, subroutines, IF branches and direct mode) answered by synthesised replies of clearly valid, clearly invalid and structurally wrong classes (incl. over-long ones, hex digits D and E, non-ASCII text) with up to two bad replies before an accepted one; targets whose type comes from DEFtype; 0.5%: C13's interrupt + CONT enumeration in every protocol state (with a direct INPUT or other inspection line before CONT, CONT typed behind a PRINT, Ctrl-C delivered twice); the request / REDO / request protocol, the caps flag and everything printed afterwards are compared with RefBASIC's reply model.",
    note="Trusted: RefBASIC's reply grammar; grey-zone spellings are never generated. Interrupts in each protocol state are enumerated by C13.",
    tech="deterministic simulation: request/retry protocol between VM and simulated terminal with hostile replies, reference reply model"),
  "C20": dict(cat="exploration", ref="DESIGN.md section 5 C20",
@@ -52,7 +52,7 @@ CLAIMED = {
    note="Trusted: the layout transformations preserve meaning (targets are AST indices, re-rendered); TRON excluded; DATA lines never moved; direct lists carry no line references and no READ.",
    tech="deterministic simulation: seeded layout configurations and resident-program / direct-line histories, twin-runtime differential oracle under different slice schedules"),
  "C14": dict(cat="exploration", ref="DESIGN.md section 5 C14",
-   text="RENUM as a transaction on the shared program store: a generated link-clean program (every referencing statement form incl. ON...GOSUB and, on unreachable lines, RUN n and LIST / DELETE in all range forms and bare; decoy numbers in PRINT, DATA, strings, remarks; non-ASCII text in front of references; line 0; lines up to 65529) is typed into the real runtime, a get_listing() snapshot is optionally held across, RENUM is typed in one of its eight argument forms with valid, overflowing, reordering, step-0 and out-of-range operands (also as a program statement, and on a program with a dangling reference). Verdict is the property's disjunction: (error reported and listing byte-identical) or (no error and listing equals the model renumbering of the generator's AST); on success the original program (fresh twin) and the renumbered one are run, entropy aligned, and transcripts and final variables must agree modulo the line map; a held snapshot must keep rendering the old text.",
+   text="RENUM as a transaction on the shared program store: a generated link-clean program (every referencing statement form incl. ON...GOSUB and, on unreachable lines, RUN n and LIST / DELETE in all range forms and bare; decoy numbers in PRINT, DATA, strings, remarks; non-ASCII text and octal / hex / exponent / typed numeric literals in front of references; line 0; lines up to 65529) is typed into the real runtime, a get_listing() snapshot is optionally held across, RENUM is typed in one of its eight argument forms with valid, overflowing, reordering, step-0 and out-of-range operands (also as a program statement, on a program with a dangling reference, and as the second RENUM in a row after a valid partial one). Verdict is the property's disjunction: (error reported and listing byte-identical) or (no error and listing equals the model renumbering of the generator's AST); on success the original program (fresh twin) and the renumbered one are run, entropy aligned, and transcripts and final variables must agree modulo the line map; a held snapshot must keep rendering the old text.",
    note="Trusted: the AST renderer and the 25-line model renumbering. A refused triple that the manual makes valid is counted, not reported (the property allows failing).",
    tech="deterministic simulation: seeded RENUM transactions with failing argument triples and live-snapshot fault, model renumbering + twin-runtime behavioural equivalence"),
  "C19": dict(cat="exploration", ref="DESIGN.md section 5 C19",
@@ -60,7 +60,7 @@ CLAIMED = {
    note="Trusted: the damage placement (faults only added, never by modifying existing statements, so the planted set is the expected set). An empty range at the end of a line counts as inside it. The value of a direct FN call is not judged here.",
    tech="deterministic simulation: seeded edit/run/stop histories with injected interrupts, every door into a damaged program under seeded slice schedules, diagnostic-range invariants against the listing snapshot"),
  "C18": dict(cat="exploration", ref="DESIGN.md section 5 C18",
-   text="Seeded long simulated runs. No-residue clause: loop bodies composed of 16 statement families (PRINT lists, LET with temporaries, SWAP, MID$=, READ+RESTORE, IF/ELSE, ON..GOSUB and ON..GOTO with the selector in and out of range, completed inner FOR / WHILE, GOSUB incl. RETURN out of an open FOR, nested FN calls, INPUT with REDO cycles, DIM+ERASE, forward GOTO, INKEY$) wrapped as FOR / GOTO-counter / WHILE loop, as a subroutine called in a loop (300 000 iterations) or typed as a 70 000-iteration direct loop; a program restarting itself with RUN from inside GOSUB/FOR 70 000 times; one direct line typed 70 000 times; three arrays of 30 001 elements filled and zeroed in turn through several zero-valued expressions per type. Limits clause: GOSUB recursion, FN recursion, re-entered FOR, more than 65 535 variables, DATA values and opcodes must end in ?OUT OF MEMORY without crash or hang, then the canary line, an intact listing, NEW or CLEAR and a small program equal to a fresh runtime; a full variable pool must accept zeroing and refilling. Verdicts are behavioural (the interpreter's own OUT OF MEMORY); the probe hook only decides whether a loop that shows no growth between two STOPs 1000 iterations apart may end early (10% run to the end regardless).",
+   text="Seeded long simulated runs. No-residue clause: loop bodies composed of 16 statement families (PRINT lists, LET with temporaries, SWAP, MID$=, READ+RESTORE, IF/ELSE, ON..GOSUB and ON..GOTO with the selector in and out of range, completed inner FOR / WHILE, GOSUB incl. RETURN out of an open FOR, nested FN calls, INPUT with REDO cycles, DIM+ERASE, forward GOTO, INKEY$) wrapped as FOR / GOTO-counter / WHILE loop, as a subroutine called in a loop (300 000 iterations) or typed as a 70 000-iteration direct loop; a program restarting itself with RUN from inside GOSUB/FOR 70 000 times; one direct line (incl. refused DATA lines) typed 70 000 times; three arrays of 30 001 elements filled and zeroed in turn through several zero-valued expressions per type. Limits clause: GOSUB recursion, FN recursion, re-entered FOR, more than 65 535 variables, DATA values and opcodes must end in ?OUT OF MEMORY without crash or hang, then the canary line, an intact listing, NEW or CLEAR and a small program equal to a fresh runtime; a full variable pool must accept zeroing and refilling. Verdicts are behavioural (the interpreter's own OUT OF MEMORY); the probe hook only decides whether a loop that shows no growth between two STOPs 1000 iterations apart may end early (10% run to the end regardless).",
    note="Trusted: the probe hook's sizes for the early-exit decision. Loop bodies failing with another error are discarded. Growth too slow to exhaust a pool within 300 000 iterations is counted, not reported.",
    tech="deterministic simulation: long simulated runs with pool-exhaustion faults and recovery check (canary, listing, fresh-twin comparison after NEW/CLEAR), probe-guided early exit"),
 }
